@@ -102,9 +102,8 @@ def transportFreshness (g : Glue) (now : Int) (e : Entry) (reqCC resCC : Directi
   match reqCC.maxAge with
   | none => (f, false)
   | some m =>
-    if m = 0 then
-      (calculateFreshness g now e (reqCC.filter (fun p => p.1 ≠ (str% "max-age"))) resCC, true)
-    else (f, f.isStale && f.ageValue ≥ m)
+    if m ≠ 0 && !(f.isStale && f.ageValue ≥ m) then (f, false)
+    else (calculateFreshness g now e (reqCC.filter (fun p => p.1 ≠ (str% "max-age"))) resCC, true)
 
 /-- SetAgeHeader: the Age value in seconds -/
 def ageSeconds (f : Freshness) (now : Int) : Int :=
